@@ -41,6 +41,7 @@ class Sink:
 
     def __init__(self):
         self.log = []
+        self.exchange_log = []   # uids of the quotes the environment's exchange processed
         self.env = None
 
     def now(self):
@@ -135,6 +136,12 @@ class EpMonitor(monitor.Recorder):
         self.rebalance_exc.append(exc)
         if s is not None:
             s.log.append(("REBEND", None, None, None, None, exc))
+
+    def pre_Exchange_process_EventNBBO(self, ex, a, k):
+        e = a[0] if a else k["event"]
+        for s in self.sinks:
+            if s.env is not None and s.env.exchange is ex:
+                s.exchange_log.append(getattr(e, "uid", None))
 
     def pre_Broker_transact(self, b, a, k):
         self.n_transact += 1
